@@ -51,10 +51,17 @@ class _ShimDateTime(_dt.datetime):
             return _dt.datetime.now(tz)
         return c.now(tz)
 
+    @classmethod
+    def utcnow(cls):
+        c = _current[0]
+        if c is None:
+            return _dt.datetime.utcnow()
+        return c.now(None)
+
 
 _shim = types.SimpleNamespace(
     datetime=_ShimDateTime, timedelta=_dt.timedelta, tzinfo=_dt.tzinfo, timezone=_dt.timezone,
-    date=_dt.date, time=_dt.time,
+    date=_dt.date, time=_dt.time, UTC=_dt.timezone.utc, MINYEAR=_dt.MINYEAR, MAXYEAR=_dt.MAXYEAR,
 )
 
 
